@@ -241,6 +241,7 @@ func runBufLong(c *core.Ctx, o longOpts) *longHist {
 				putsCalled.Add(int64(len(vs)))
 				call := core.Now()
 				err := b.Put(context.Background(), args...)
+				poisonArgs(args) // the caller owns its slice again once Put returned
 				ret := core.Now()
 				putsReturned.Add(int64(len(vs)))
 				if err != nil {
